@@ -59,7 +59,10 @@ class Ctx:
 
 ODD = ('dup_ignore', 'ignore_and_data', 'unknown_hash', 'unsupported_hash', 'nul_path',
        'entry_is_dir', 'entry_under_file', 'unregistered_sub', 'dup_dist', 'dup_data_misc',
-       'manifest_entry_is_dir')
+       'manifest_entry_is_dir', 'dup_manifest_entry', 'dup_timestamp', 'ignore_top_manifest',
+       'entry_for_top_manifest', 'empty_top', 'data_and_manifest', 'aux_missing',
+       'ignore_then_listed_below', 'manifest_missing_file', 'compressed_sub_invalid',
+       'hidden_listed_dir')
 
 
 def s_odd(v):
@@ -95,6 +98,34 @@ def s_odd(v):
         top += [mk('DIST', 'd.tar', 1, MD5=md5), mk('DIST', 'd.tar', 2, MD5=md5)]
     elif odd == 'dup_data_misc':
         top += [mk('MISC', 'a', 2, MD5=md5)]
+    elif odd == 'dup_manifest_entry':
+        top += [mk('MANIFEST', 'sub/Manifest', 4, MD5=digest_for('MD5', 'S'))]
+    elif odd == 'dup_timestamp':
+        import datetime
+        from gemato.manifest import ManifestEntryTIMESTAMP
+        top += [ManifestEntryTIMESTAMP(datetime.datetime(2020, 1, 1)),
+                ManifestEntryTIMESTAMP(datetime.datetime(2021, 1, 1))]
+    elif odd == 'ignore_top_manifest':
+        top += [mk('IGNORE', 'Manifest')]
+    elif odd == 'entry_for_top_manifest':
+        top += [mk('DATA', 'Manifest', 1, MD5=md5)]
+    elif odd == 'empty_top':
+        top, registered = [], False
+    elif odd == 'data_and_manifest':
+        top += [mk('DATA', 'sub/Manifest', 4, MD5=digest_for('MD5', 'S'))]
+    elif odd == 'aux_missing':
+        top += [mk('AUX', 'gone.patch', 1, MD5=md5)]
+    elif odd == 'ignore_then_listed_below':
+        fs.add_file('ig/x', size=1, digest='x')
+        top += [mk('IGNORE', 'ig'), mk('DATA', 'ig/x', 1, MD5=digest_for('MD5', 'x'))]
+    elif odd == 'manifest_missing_file':
+        top += [mk('MANIFEST', 'nodir/Manifest', 1, MD5=md5)]
+    elif odd == 'compressed_sub_invalid':
+        fs.add_manifest('z/Manifest.gz', [], size=2, digest='Z', invalid=True)
+        top += [mk('MANIFEST', 'z/Manifest.gz', 2, MD5=digest_for('MD5', 'Z'))]
+    elif odd == 'hidden_listed_dir':
+        fs.add_file('.hid/f', size=1, digest='f')
+        top += [mk('DATA', '.hid/f', 1, MD5=digest_for('MD5', 'f'))]
     fs.add_manifest('sub/Manifest', sub, size=4, digest='S')
     if odd == 'manifest_entry_is_dir':
         fs.add_dir('dirm')
